@@ -92,7 +92,7 @@ def make_item(kind, tag):
         return it
     if kind == "plain":
         return Plain(tag)
-    if kind in ("reenter", "reenter-clear", "raises"):
+    if kind in ("reenter", "reenter-clear", "reenter-get", "raises"):
         return Plain(tag, kind)
     raise HarnessError(f"bad item kind {kind}")
 
@@ -451,12 +451,22 @@ def hist_c25(case):
     raise HarnessError(f"bad cls {cls}")
 
 
+REFCOUNT_KINDS = HIST_KINDS + ("reenter-get",)
+
+
 def hist_refcount(case):
-    """case = {"item": kind, "cmds": [["get"] | ["dep", ref] | ["primary"]]}; ref modulo #dependents so far."""
+    """case = {"item": kind, "cmds": [["get"] | ["dep", ref] | ["primary"]]}; ref modulo #dependents so far.
+    Underlying kinds: plain | empty (falsy) | reenter (its dispose() calls the RefCountDisposable's dispose() and every
+    dependent's dispose() again) | reenter-get (its dispose() requests a new dependent and disposes it) | raises (raises
+    ItemRaise after counting; the history catches it and goes on)."""
     cmds = case["cmds"]
     under = make_item(case.get("item", "plain"), "underlying")
     rc = RefCountDisposable(under)
     deps = []  # (real, live_in_model)
+    if under.behave == "reenter":
+        under.hook = lambda: (rc.dispose(), [d.dispose() for d in list(deps)])
+    elif under.behave == "reenter-get":
+        under.hook = lambda: rc.disposable.dispose()
     live = set()
     primary = False
     released = False
@@ -467,40 +477,50 @@ def hist_refcount(case):
         return FAIL(f"{clause}|refcount", f"step {i} {cmds[i]}: {detail}; case={case}", classes=sorted(classes))
 
     for i, c in enumerate(cmds):
-        if c[0] == "get":
-            dep = rc.disposable
-            if released:
-                classes.add("get-after-release")
-                nontrivial = True
-            else:
-                live.add(len(deps))
+        n0 = under.n
+        try:
+            if c[0] == "get":
+                dep = rc.disposable
+                if released:
+                    classes.add("get-after-release")
+                    nontrivial = True
+                else:
+                    live.add(len(deps))
+                    if primary:
+                        classes.add("get-after-primary")
+                deps.append(dep)
+            elif c[0] == "dep":
+                if not deps:
+                    continue
+                j = c[1] % len(deps)
+                if j in live:
+                    live.discard(j)
+                else:
+                    classes.add("dep-twice-or-inert")
+                    nontrivial = True
+                deps[j].dispose()
+            elif c[0] == "primary":
                 if primary:
-                    classes.add("get-after-primary")
-            deps.append(dep)
-        elif c[0] == "dep":
-            if not deps:
-                continue
-            j = c[1] % len(deps)
-            deps[j].dispose()
-            if j in live:
-                live.discard(j)
-            else:
-                classes.add("dep-twice-or-inert")
-                nontrivial = True
-        elif c[0] == "primary":
-            if primary:
-                classes.add("primary-twice")
-            primary = True
-            rc.dispose()
+                    classes.add("primary-twice")
+                primary = True
+                rc.dispose()
+        except ItemRaise:
+            if under.behave != "raises" or under.n == n0:
+                raise
+            classes.add("item-raised")
+            nontrivial = True
         if primary and not live and not released:
             released = True
+            if under.behave:
+                classes.add(under.behave + "-release")
+                nontrivial = True
             if deps:
                 nontrivial = True
                 classes.add("release-by-dependent" if c[0] == "dep" else "release-by-primary")
         want = 1 if released else 0
         if under.n != want:
             if under.n > 1:
-                clause = "released-twice"
+                clause = "released-twice" + (":" + under.behave if under.behave else "")
             elif under.n == 1:
                 clause = "released-early"
             else:
@@ -554,7 +574,9 @@ def det_build(case):
         from reactivex.scheduler import EventLoopScheduler, ImmediateScheduler
 
         ctx["under"] = make_item(case.get("item", "plain"), "wrapped")
-        ctx["sched"] = EventLoopScheduler() if case.get("on") == "eventloop" else ImmediateScheduler()
+        from reactivex.scheduler import TimeoutScheduler
+
+        ctx["sched"] = {"eventloop": EventLoopScheduler, "timeout": TimeoutScheduler}.get(case.get("on"), ImmediateScheduler)()
         obj = ScheduledDisposable(ctx["sched"], ctx["under"])
     elif cls == "refcount":
         ctx["under"] = make_item(case.get("item", "plain"), "underlying")
@@ -641,7 +663,7 @@ def det_judge(case, ctx, res):
     cmds = [(t, i, c) for t, cl in enumerate(T) for i, c in enumerate(cl)]
     disposes = [(t, i) for t, i, c in cmds if c[0] in ("dispose", "primary")]
     # C25 clause shared by all classes with a flag: is_disposed is true once a dispose() returned
-    if cls != "refcount" and not (cls == "scheduled" and case.get("on") == "eventloop"):
+    if cls != "refcount" and not (cls == "scheduled" and case.get("on") in ("eventloop", "timeout")):
         for t, i in disposes:
             if results.get((t, i)) != ["flag", True]:
                 return "is_disposed-after-dispose", f"thread {t} cmd {i}: is_disposed was {results.get((t, i))} right after dispose() returned"
@@ -721,7 +743,7 @@ def det_judge(case, ctx, res):
         under = ctx["under"]
         if under.n != (1 if D else 0):
             return "wrapped-count", f"{under!r} after {len(disposes)} dispose calls"
-        if case.get("on") == "eventloop" and D:
+        if case.get("on") in ("eventloop", "timeout") and D:
             ev = [(k, tid) for k, (_, tid, pl) in enumerate(res.events) if pl == ("item", "wrapped")]
             if ev and ev[0][1] is not None and ev[0][1] < len(T):
                 return "disposed-off-scheduler", f"wrapped resource disposed on program thread {ev[0][1]}, not on the scheduler's thread"
@@ -776,8 +798,10 @@ def det_run(case):
     kw = dict(RUN_KW)
     if case.get("opcodes"):
         kw["opcodes"] = case["opcodes"]
-    if cls == "scheduled" and case.get("on") == "eventloop":
-        kw["reuse_threads"] = False
+    if case.get("slice"):
+        kw_slice = tuple(case["slice"])
+    else:
+        kw_slice = None
     factory = lambda: det_build(case)  # noqa: E731
 
     def verdict(s, res, ctx):
@@ -796,7 +820,7 @@ def det_run(case):
             runs = 0
             overlap = 0
             incomplete = 0
-            for s, res, ctx in det.explore(factory, K=sched["K"], **kw):
+            for s, res, ctx in det.explore(factory, K=sched["K"], slice_=kw_slice, **kw):
                 if runs == 0:
                     res_b, _ = det.run_checked(factory, s, **kw)  # determinism of the base run
                     if res_b.fingerprint() != res.fingerprint():
@@ -810,6 +834,9 @@ def det_run(case):
             if incomplete:
                 return SKIP("budget")
             cl = ["exhaustive", f"K{sched['K']}", f"T{len(case['threads'])}"]
+            if cls == "scheduled":
+                cl.append(f"on:{case.get('on', 'immediate')}:K{sched['K']}")
+            cl.append("shape:" + "|".join(str(len(t)) for t in case["threads"]) + f":K{sched['K']}")
             cl += [f"runs>={b}" for b in (10, 100, 1000) if runs >= b]
             return OK(overlap > 0, cl)
         threads, ctx = factory()
